@@ -1,5 +1,5 @@
 CONSTANTS
-  N = 2
+  N = 3
   Buf = 1
   Max = 1
   W = 2
